@@ -21,7 +21,9 @@ Case kinds
   bool  : tol_screen=True/False must be rejected.
 Streams (tag prefix): rand (cutoff-scaled random geometry), grid (generic grid geometry), near (pairs
 placed at the cutoff to 1 ulp: either answer), edge (pairs at cutoff*(1 +- 2^-20 / 2^-27): definite),
-minmax (the largest / first / last exponent would give the other decision) (v)."""
+minmax (the largest / first / last exponent would give the other decision) (v), history (kind "history": a sequence
+of screened calls on the SAME shell objects with exponent changes - setter or in place, then assign_norm_cont() - in
+between; every call judged by the model for the shells as they are at that call; see eval_history)."""
 import math
 import random
 from fractions import Fraction
@@ -37,7 +39,17 @@ RULE = ("bases of 2-5 shells, l 0..3, 1-4 primitives with exponents log-uniform 
         "representable, 0..30 bohr) or on a 1/16 grid; tolerances 2^-k (k=1..53), decimal doubles 1e-16..0.5 and "
         "log-uniform doubles, always with None; with/without transform; separate streams: pairs at the cutoff to "
         "1 ulp (either answer accepted), pairs at cutoff*(1 +- 2^-20), (1 +- 2^-27) (definite answer demanded), "
-        "min-vs-max-exponent discriminating pairs, bool tolerance. A basis case is non-trivial when at least one "
+        "min-vs-max-exponent discriminating pairs, bool tolerance. HISTORY stream (tag 'history', detail kind "
+        "'history'; 36 quick / 400 thorough): ONE list of 2-3 shell objects (l 0..2) lives through three calls: screened "
+        "call -> the exponents of shell 0 (40%: also shell 1) are changed so that the smallest one moves by a factor "
+        "4..50 down (tight->diffuse) or up (all exponents scaled, or only the smallest moved; through the setter "
+        "shell.exps = array or in place shell.exps[...] = array, alternating), then shell.assign_norm_cont() -> screened "
+        "call with pair (0,1) at a distance strictly between the old and the new cutoff (5% margins) -> exponents "
+        "restored by the other mechanism -> screened call; level overlap_integral (2/3) or construct_array_contraction "
+        "for every ordered pair (1/3); EVERY call is compared with the exact model of the rule for the shells as they "
+        "are at that call (removed blocks exactly zero, kept blocks = unscreened call on the same objects and = exact "
+        "model); a history case is non-trivial when the previous exponents would decide some pair the other way; "
+        "shrinking keeps >= 2 calls and runs every candidate in a fresh process. A basis case is non-trivial when at least one "
         "block is removed and one off-diagonal block is kept over its tolerances (or it belongs to a special "
         "stream and the stream's premise holds); distinct by hash of the exact input")
 ASSUMPTIONS = [
@@ -370,8 +382,154 @@ def eval_bool(model, case):
     return {"detail": d, "nontrivial": True, "tag": tag}
 
 
+def _hist_shells(case, upto):
+    """The exact shells AS THEY ARE at call number `upto` (0-based): the case's basis with every exponent change of
+    the steps 0..upto applied."""
+    basis = [XShell.from_json(sj) for sj in case["basis"]]
+    for st in case["steps"][:upto + 1]:
+        for ch in st.get("set", []):
+            basis[ch["shell"]].exps = [Fraction(e) for e in ch["exps"]]
+    return basis
+
+
+def eval_history(model, case):
+    """HISTORY stream.  ONE list of GeneralizedContractionShell objects lives through a sequence of calls.  Step k:
+    (a) optional exponent changes ("set": through the public setter `shell.exps = array`, or in place
+    `shell.exps[...] = array`), each followed by `shell.assign_norm_cont()`; (b) a screened call with the step's
+    tolerance - overlap_integral(basis, tol_screen=t) (level "integral") or Overlap.construct_array_contraction(a, b,
+    tol_screen=t) for every pair (level "block").  Every call is judged against the exact model of the screening rule
+    (commands 230 / 2) for the shells as they are AT THAT CALL: removed blocks exactly zero, kept blocks equal to the
+    unscreened call on the same objects (bitwise or 1e-12) and to the exact unscreened model (1e-8), pairs within 1e-9
+    of the cutoff either way.  Anything the implementation remembers about a shell from an earlier call shows."""
+    from gbasis.integrals.overlap import Overlap, overlap_integral
+
+    steps = case["steps"]
+    level = case.get("level", "integral")
+    basis0 = [XShell.from_json(sj) for sj in case["basis"]]
+    n = len(basis0)
+    tag = "history %s n=%d calls=%d" % (level, n, len(steps))
+    stats = {"history: calls": 0, "history: pair decisions the previous exponents would give the other way": 0,
+             "history: exponent changes (setter)": 0, "history: exponent changes (in place)": 0}
+    flipped = False
+
+    def out(detail, nontrivial=True):
+        if detail is not None:
+            detail = dict(detail)
+            detail["history"] = "call %d of %d on the same shell objects" % (detail.pop("_call") + 1, len(steps))
+            detail["kind"] = "history"
+        return {"detail": detail, "nontrivial": nontrivial, "tag": tag, "stats": stats}
+
+    st, gb = call_impl(lambda: [s.to_gbasis() for s in basis0])
+    if st != "ok":
+        return out({"what": "rejected", "impl": gb, "call": "GeneralizedContractionShell(...)", "_call": 0})
+    off = [0]
+    for s in basis0:
+        off.append(off[-1] + s.nfun())
+    for k, step in enumerate(steps):
+        basis = _hist_shells(case, k)
+        for ch in step.get("set", []):
+            g = gb[ch["shell"]]
+            new = np.array([float(Fraction(e)) for e in ch["exps"]])
+            how = ch.get("how", "setter")
+
+            def change(g=g, new=new, how=how):
+                if how == "setter":
+                    g.exps = new
+                else:
+                    g.exps[...] = new
+                g.assign_norm_cont()
+            st, r = call_impl(change)
+            if st != "ok":
+                return out({"what": "rejected", "impl": r, "call": "exps change (%s) + assign_norm_cont()" % how,
+                            "_call": k})
+            stats["history: exponent changes (%s)" % ("setter" if how == "setter" else "in place")] += 1
+        tol = parse_tol(step["tol"])
+        kw = {"tol_screen": None if tol is None else float(tol)}
+        # the implementation's answers on the LIVE objects
+        pairs = [(i, j) for i in range(n) for j in range(i, n)]
+        if level == "integral":
+            st, r = call_impl(overlap_integral, gb, **kw)
+            st0, r0 = call_impl(overlap_integral, gb)
+            if st != "ok" or st0 != "ok":
+                return out({"what": "rejected", "impl": r if st != "ok" else r0, "tol": str(tol), "_call": k})
+            if r.shape != (off[-1], off[-1]) or r0.shape != r.shape:
+                return out({"what": "shape", "impl_shape": list(r.shape), "model_shape": [off[-1], off[-1]],
+                            "_call": k})
+            m0a = np.array(model.call("(2 (%s) ())" % " ".join(s.sx() for s in basis)), dtype=object)
+            mask = np.ones(r.shape, dtype=bool)
+            undecided = np.zeros(r.shape, dtype=bool)
+        stats["history: calls"] += 1
+        dec = {}
+        for (i, j) in pairs:
+            scr, near, d2, rad, ma, mb = decide(model, tol, basis[i], basis[j])
+            dec[(i, j)] = None if near else scr
+            for (p, q) in ((i, j), (j, i)) if i != j else ((i, j),):
+                info = {"pair": [p, q], "tol": str(tol), "d2": str(d2), "cutoff2": "%.17g" % float(rad),
+                        "min_exps": [str(ma), str(mb)], "_call": k}
+                if level == "integral":
+                    b = r[off[p]:off[p + 1], off[q]:off[q + 1]]
+                    b0 = r0[off[p]:off[p + 1], off[q]:off[q + 1]]
+                    o0 = [off[p], off[q]]
+                else:
+                    st, b = call_impl(Overlap.construct_array_contraction, gb[p], gb[q], **kw)
+                    st0, b0 = call_impl(Overlap.construct_array_contraction, gb[p], gb[q])
+                    if st != "ok" or st0 != "ok":
+                        return out(dict(info, what="rejected", impl=b if st != "ok" else b0))
+                    if tuple(b.shape) != tuple(b0.shape):
+                        return out(dict(info, what="shape", impl_shape=list(b.shape), model_shape=list(b0.shape)))
+                    o0 = None
+                if near:
+                    if level == "integral":
+                        undecided[off[p]:off[p + 1], off[q]:off[q + 1]] = True
+                    if not (is_zero(b) or same_block(b, b0)):
+                        return out(dict(info, what="near-block", impl="block at the cutoff is neither exactly zero "
+                                        "nor the unscreened block"))
+                    continue
+                if scr:
+                    if level == "integral":
+                        mask[off[p]:off[p + 1], off[q]:off[q + 1]] = False
+                    if not is_zero(b):
+                        kk = np.unravel_index(np.abs(b).argmax(), b.shape)
+                        return out(dict(info, what="not-removed", impl=repr(float(b[kk])),
+                                        model="0 (beyond the cutoff of the shells' CURRENT smallest exponents)",
+                                        index=[int(x) + (o0[t] if o0 else 0) for t, x in enumerate(kk)]))
+                elif not same_block(b, b0):
+                    kk = np.unravel_index(np.abs(b - b0).argmax(), b.shape)
+                    return out(dict(info, what="kept-block-changed", impl=repr(float(b[kk])),
+                                    model=repr(float(b0[kk])) + " (unscreened call on the same objects; the pair is "
+                                    "inside the cutoff of the shells' CURRENT smallest exponents)",
+                                    index=[int(x) + (o0[t] if o0 else 0) for t, x in enumerate(kk)]))
+                if level != "integral":
+                    ms = model.call("(232 %s %s %s)" % (tol_sx(tol), basis[p].sx(), basis[q].sx()))
+                    dd = compare(b, ms, tol_abs=TOL * block_scale(model, basis[p], basis[q]))
+                    if dd is not None:
+                        dd["what"] = dd.pop("kind")
+                        return out(dict(info, **dd))
+        if level == "integral":
+            dd = compare_masked(r, m0a, mask, undecided)
+            if dd is not None:
+                dd["what"] = dd.pop("kind")
+                dd["tol"] = str(tol)
+                dd["_call"] = k
+                return out(dd)
+        if k > 0 and step.get("set"):
+            # premise of the stream: with the exponents of the PREVIOUS call some pair would be decided the other way
+            old = _hist_shells(case, k - 1)
+            ch = 0
+            for (i, j) in pairs:
+                if i != j and dec[(i, j)] is not None:
+                    scr_old, near_old = decide(model, tol, old[i], old[j])[:2]
+                    if not near_old and scr_old != dec[(i, j)]:
+                        ch += 1
+            stats["history: pair decisions the previous exponents would give the other way"] += ch
+            flipped = flipped or ch > 0
+    return out(None, flipped)
+
+
 def eval_case(model, case):
     k = case["kind"]
+    if k == "history":
+        return eval_history(model, case)
     if k == "basis":
         return eval_basis(model, case)
     if k == "block":
@@ -614,6 +772,69 @@ def special_cases(rng, tier):
     return cases
 
 
+def gen_history_case(rng, idx):
+    """Screened call -> exponents of shell 0 (sometimes also shell 1) changed so that the smallest one moves by a
+    factor 4..50 (down: tight -> diffuse, up: diffuse -> tight), through the setter or in place, then
+    assign_norm_cont() -> screened call with the pair (0, 1) at a distance strictly between the old and the new cutoff
+    -> exponents restored (by the other mechanism) -> screened call.  All exponents stay in 0.05..500, all distances
+    are exactly representable and <= 30 bohr."""
+    level = "block" if idx % 3 == 2 else "integral"
+    n = 2 + (idx % 2)
+    while True:
+        basis = [c20_shell(rng, l=rng.randint(0, 2), kmax=3, mmax=2, sph=False if level == "block" else None)
+                 for _ in range(n)]
+        down = rng.random() < 0.5
+        which = [0, 1] if rng.random() < 0.4 else [0]
+        new = {}
+        ok = True
+        for w in which:
+            es = list(basis[w].exps)
+            f = Fraction(rng.randint(16, 200), 4)                  # 4 .. 50
+            imin = es.index(min(es))
+            if rng.random() < 0.5:                                  # every exponent scaled
+                ne = [e / f if down else e * f for e in es]
+            else:                                                   # only the smallest one moves
+                ne = list(es)
+                ne[imin] = es[imin] / f if down else es[imin] * f
+            ne = [Fraction(float(e)) for e in ne]
+            r = min(ne) / min(es)
+            if (len(set(ne)) != len(ne) or min(ne) < Fraction(1, 20) or max(ne) > 500
+                    or not (r >= 4 or r <= Fraction(1, 4)) or r > 50 or r < Fraction(1, 50)):
+                ok = False
+                break
+            new[w] = ne
+        if not ok:
+            continue
+        tol = gen_tol(rng)
+        L = -math.log(float(tol))
+        a0, b0 = float(min(basis[0].exps)), float(min(basis[1].exps))
+        a1, b1 = float(min(new[0])), float(min(new.get(1, basis[1].exps)))
+        c_old, c_new = math.sqrt((1 / a0 + 1 / b0) * L), math.sqrt((1 / a1 + 1 / b1) * L)
+        lo, hi = min(c_old, c_new) * 1.05, min(max(c_old, c_new) * 0.95, 30.0)
+        u = rng.choice(DIRS)
+        nu = dir_norm(u)
+        if hi - lo < 2.0 * nu / 16:
+            continue
+        t = Fraction(round(rng.uniform(lo, hi) * 16 / nu), 16)      # distance in units of |u|
+        if not lo < float(t * nu) < hi:
+            continue
+        break
+    sg = [rng.choice([-1, 1]) for _ in range(3)]
+    origin = [Fraction(rng.randint(-32, 32), 16) for _ in range(3)]
+    pos = [Fraction(0), t] + [Fraction(rng.randint(0, int(t * 16)), 16) for _ in range(n - 2)]
+    for s_, p_ in zip(basis, pos):
+        s_.coord = [origin[ax] + sg[ax] * u[ax] * p_ for ax in range(3)]
+    hows = ["setter", "inplace"] if (idx // 2) % 2 == 0 else ["inplace", "setter"]
+    tol0 = tol if rng.random() < 0.5 else gen_tol(rng)
+    steps = [{"tol": str(tol0)},
+             {"tol": str(tol), "set": [{"shell": w, "exps": [str(e) for e in new[w]], "how": hows[i % 2]}
+                                       for i, w in enumerate(which)]},
+             {"tol": str(tol), "set": [{"shell": w, "exps": [str(e) for e in basis[w].exps], "how": hows[(i + 1) % 2]}
+                                       for i, w in enumerate(which)]}]
+    return {"kind": "history", "stream": "history", "level": level, "basis": [s_.to_json() for s_ in basis],
+            "steps": steps, "direction": "tight->diffuse" if down else "diffuse->tight"}
+
+
 def gen_cases(tier, seed):
     rng = random.Random(2000003 * seed + 20)
     cases = []
@@ -623,14 +844,75 @@ def gen_cases(tier, seed):
         bits = 53 if (tier == "thorough" and i % 10 == 7) else 8
         cases.append(gen_basis_case(rng, tier, i, stream, bits))
     cases += special_cases(rng, tier)
+    # HISTORY stream (own generator: the other streams are what they were before it existed)
+    hrng = random.Random(2000003 * seed + 2020)
+    for i in range(36 if tier == "quick" else 400):
+        cases.append(gen_history_case(hrng, i))
     return cases
 
 
 # ----------------------------------------------------------------------------------------------
 # shrinking
 # ----------------------------------------------------------------------------------------------
+def _hist_drop_step(case, k):
+    """the sequence without call k; its exponent changes are carried to the next call (later changes win)"""
+    steps = [dict(st) for st in case["steps"]]
+    gone = steps.pop(k)
+    if k < len(steps) and gone.get("set"):
+        later = {ch["shell"] for ch in steps[k].get("set", [])}
+        steps[k]["set"] = [ch for ch in gone["set"] if ch["shell"] not in later] + list(steps[k].get("set", []))
+    c = dict(case)
+    c["steps"] = steps
+    return c
+
+
+def shrink_history(case):
+    steps = case["steps"]
+    lst = case["basis"]
+    if len(steps) > 2:                                  # a history keeps at least two calls
+        for k in reversed(range(len(steps))):
+            yield _hist_drop_step(case, k)
+    touched = {ch["shell"] for st in steps for ch in st.get("set", [])}
+    if len(lst) > 2:
+        for i in range(len(lst)):
+            if i in touched:
+                continue
+            c = dict(case)
+            c["basis"] = lst[:i] + lst[i + 1:]
+            c["steps"] = [dict(st, set=[dict(ch, shell=ch["shell"] - (1 if ch["shell"] > i else 0))
+                                        for ch in st["set"]]) if st.get("set") else dict(st) for st in steps]
+            yield c
+    if case.get("level") == "integral":
+        c = dict(case)
+        c["level"] = "block"
+        c["basis"] = [dict(sj, sph=False) for sj in lst]
+        yield c
+    for i, sj in enumerate(lst):
+        k = len(sj["exps"])
+        if k > 1:                                       # drop primitive p of shell i in the basis and in every change
+            for p_ in range(k):
+                t = dict(sj, exps=sj["exps"][:p_] + sj["exps"][p_ + 1:], coeffs=sj["coeffs"][:p_] + sj["coeffs"][p_ + 1:])
+                if not all(any(Fraction(x) != 0 for x in col) for col in zip(*t["coeffs"])):
+                    continue
+                c = dict(case)
+                c["basis"] = lst[:i] + [t] + lst[i + 1:]
+                c["steps"] = [dict(st, set=[dict(ch, exps=ch["exps"][:p_] + ch["exps"][p_ + 1:]) if ch["shell"] == i
+                                            else dict(ch) for ch in st["set"]]) if st.get("set") else dict(st)
+                              for st in steps]
+                yield c
+        for t in shrink_shell_json(sj):
+            if t["coord"] != sj["coord"] or t["exps"] != sj["exps"]:
+                continue
+            c = dict(case)
+            c["basis"] = lst[:i] + [t] + lst[i + 1:]
+            yield c
+
+
 def shrink_case(case):
     kind = case["kind"]
+    if kind == "history":
+        yield from shrink_history(case)
+        return
     if kind == "basis":
         lst = case["basis"]
         if case.get("transform") is not None:
@@ -761,6 +1043,7 @@ def run(rep, tier, seed, model, replay):
         cases = [replay["case"]]
     else:
         cases = gen_cases(tier, seed)
-    run_cases(rep, cases, eval_case, shrinkfn=shrink_case)
+    # isolate: shrink candidates / replayed cases of the history stream are evaluated in fresh processes
+    run_cases(rep, cases, eval_case, shrinkfn=shrink_case, isolate=True)
     if replay is None and model is not None:
         coq_crosscheck(rep, cases, seed)
